@@ -17,6 +17,47 @@ theorem gen_dispatch_no_shadow : SigmaVerif.Gen.Conv.shadowed = [] := by decide
 theorem gen_swapped_restored :
     SigmaVerif.Gen.Conv.swapped.all SigmaVerif.Gen.Conv.restored.contains = true := by decide
 
+/-! ## Code-shaped constants of the model (the decisions `Model/Conv.lean` hard-codes), as the translator reads them
+from the live source.  A change of one of these tests breaks the obligation; the drift comparison
+(`conv.run`, harness/c01.py) then shows on which inputs the model and the code disagree. -/
+
+/-- `decideIn`: the five `return False` guards of `decide_convert_condition_as_in_expression`, in
+order — knob of the operator (`orAsIn`/`andAsIn`), all operands field/value expressions (`.atom`),
+one field (`field`), value classes (`inOk`), wildcards (`inAllowWild`/`special`) -/
+theorem gen_in_guards : SigmaVerif.Gen.Conv.inGuards =
+    ["not self.convert_or_as_in and isinstance(cond, ConditionOR) or (not self.convert_and_as_in and isinstance(cond, ConditionAND))",
+     "not all((isinstance(arg, ConditionFieldEqualsValueExpression) for arg in cond.args))",
+     "len(fields) != 1",
+     "not all([isinstance(arg.value, (SigmaString, SigmaNumber)) and (not isinstance(arg.value, SigmaCasedString)) for arg in args])",
+     "not self.in_expressions_allow_wildcards and any([arg.value.contains_special() for arg in args if isinstance(arg.value, SigmaString)])"] := rfl
+
+/-- `AtomInfo.inOk` / `AtomInfo.special` are computed by the harness from exactly these class names -/
+theorem gen_in_classes : SigmaVerif.Gen.Conv.inValueClasses = ["SigmaString", "SigmaNumber"] ∧
+    SigmaVerif.Gen.Conv.inExcluded = ["SigmaCasedString"] ∧
+    SigmaVerif.Gen.Conv.inSpecialClasses = ["SigmaString"] := ⟨rfl, rfl, rfl⟩
+
+/-- `cidrAsOr`: a CIDR value counts as an OR iff there is no native CIDR expression (then it is a
+`CT.cidr` node) and not (`orAsIn` and `inAllowWild`) -/
+theorem gen_cidr_or_guard : SigmaVerif.Gen.Conv.cidrOrGuard =
+    "isinstance(value, SigmaCIDRExpression) and self.cidr_expression is None and (not (self.convert_or_as_in and self.in_expressions_allow_wildcards))" := rfl
+
+/-- `convert` on `.not c`: the operand is grouped iff its class is in the precedence tuple
+(NOT/AND/OR) or it is an expansion / a CIDR value counting as OR -/
+theorem gen_not_group_guard : SigmaVerif.Gen.Conv.notGroupGuard =
+    ["arg.__class__ in self.precedence or (isinstance(arg, (ConditionFieldEqualsValueExpression, ConditionValueExpression)) and (isinstance(arg.value, SigmaExpansion) or self._cidr_converts_to_or(arg.value)))"] := rfl
+
+/-- `comparePrec` / `innerIdx` / `isAtomLike`: parenthesize groups everything but field/value
+expressions; expansions and OR-CIDR values have the class of OR, a negative existence test without
+a not-exists expression (`CT.nex`) the class of NOT; the result is `idx_inner ≤ idx_outer` -/
+theorem gen_compare_precedence :
+    SigmaVerif.Gen.Conv.precParenGuard =
+      ["self.parenthesize and (not isinstance(inner, (ConditionFieldEqualsValueExpression, ConditionValueExpression, SigmaRuleReference)))"] ∧
+    SigmaVerif.Gen.Conv.precInnerChain =
+      ["isinstance(inner, SigmaRuleReference)",
+       "isinstance(inner, (ConditionFieldEqualsValueExpression, ConditionValueExpression)) and (isinstance(inner.value, SigmaExpansion) or self._cidr_converts_to_or(inner.value))",
+       "isinstance(inner, ConditionFieldEqualsValueExpression) and isinstance(inner.value, SigmaExists) and (not inner.value) and (not self.explicit_not_exists_expression)"] ∧
+    SigmaVerif.Gen.Conv.precReturn = ["idx_inner <= self.precedence.index(outer_class)"] := ⟨rfl, rfl, rfl⟩
+
 /-- C01 grouping soundness instantiated at the live default precedence, for both `parenthesize`
 settings and all in-list knobs -/
 theorem gen_convert_sound (par oi ai aw : Bool) (c : SigmaVerif.Conv.CT) (hc : wfTree c = true) (q : List SigmaVerif.Conv.QTok)
